@@ -206,9 +206,35 @@ fn record(dir: &Path, thorough: bool) -> Result<Recorded, String> {
     let (c_b1, a_b1) = tc(3, Prior::Single(a_a1), &[ins("n1", k(&["a"]), "v1")]);
     let (c_m, a_m) = merge_of(4, a_a2, a_b1);
     let mut trx = client.transaction(gid);
-    client.add_commands(&mut trx, &mut sink, &[c_a1, c_a2, c_b1, c_m], &mut bufs, MemSpill::new).map_err(|x| e("add_commands 2", &x))?;
+    client.add_commands(&mut trx, &mut sink, &[c_a1.clone(), c_a2.clone(), c_b1, c_m], &mut bufs, MemSpill::new).map_err(|x| e("add_commands 2", &x))?;
     client.commit(trx, &mut sink, &mut bufs, MemSpill::new).map_err(|x| e("commit 2", &x))?;
     done(&mut client, "3-segment transaction (branch + merge)")?;
+
+    // 2a-2d: commits that append nothing but the head-set record (the data barrier then guards
+    // only that record): a transaction that is offered only commands the graph already holds
+    // commits the unchanged single head and reuses its fact index.
+    let known = [c_a1.clone(), c_a2.clone()];
+    let mut recommit = |client: &mut ClientState<ScriptStore, Sp>, bufs: &mut Bufs, sink: &mut VecSink| -> Result<(), String> {
+        let mut trx = client.transaction(gid);
+        let n = client.add_commands(&mut trx, sink, &known, bufs, MemSpill::new).map_err(|x| format!("workload: re-delivery failed: {x:?}"))?;
+        if n != 0 {
+            return Err(format!("workload: re-delivering known commands added {n} commands"));
+        }
+        if !client.commit(trx, sink, bufs, MemSpill::new).map_err(|x| format!("workload: re-commit failed: {x:?}"))? {
+            return Err("workload: the re-commit did not commit".into());
+        }
+        Ok(())
+    };
+    recommit(&mut client, &mut bufs, &mut sink)?;
+    done(&mut client, "re-commit: transaction re-delivering known commands")?;
+    drop(client);
+    client = open_client(dir)?;
+    recommit(&mut client, &mut bufs, &mut sink)?;
+    done(&mut client, "re-commit right after reopening the provider")?;
+    recommit(&mut client, &mut bufs, &mut sink)?;
+    done(&mut client, "re-commit back to back (1)")?;
+    recommit(&mut client, &mut bufs, &mut sink)?;
+    done(&mut client, "re-commit back to back (2)")?;
 
     // 3: two branches, committed multi-head (braided fact cache)
     let (c_p1, a_p1) = tc(5, Prior::Single(a_m), &[ins("n0", k(&["a"]), "v1")]);
@@ -500,8 +526,13 @@ pub fn run(args: &Args) {
         replay(args, &rec, scratch, p);
     }
     let obs_hash: Vec<u128> = rec.obs.iter().map(|o| hash128(o)).collect();
-    if obs_hash.iter().collect::<BTreeSet<_>>().len() != obs_hash.len() {
-        mcx::machinery_error("two commits of the workload have the same observation");
+    // Re-commits of an unchanged head set give the same observation as their predecessor (the
+    // oracle then cannot tell which of the two was recovered, and does not need to); all other
+    // commits must be distinguishable.
+    let distinct_obs = obs_hash.iter().collect::<BTreeSet<_>>().len();
+    let recommits = rec.steps.iter().filter(|s| s.starts_with("re-commit")).count();
+    if distinct_obs + recommits != obs_hash.len() {
+        mcx::machinery_error("two different commits of the workload have the same observation");
     }
 
     let en = enumerate(&rec.log);
@@ -588,14 +619,17 @@ pub fn run(args: &Args) {
                 }
             }
         };
-        if let Some(j) = recovered {
-            match (&res.second, ref_second[j]) {
-                (Some(Ok(s)), Some(want)) if *s == want => {}
-                (Some(Ok(_)), Some(_)) => {
+        if let (Some(j), Ok(h)) = (recovered, &res.first) {
+            // when the commit in progress leaves the observation unchanged either root may have
+            // been recovered: the follow-up commit must match one of the two uncrashed references
+            let wants: Vec<u128> = [k.checked_sub(1), in_progress].into_iter().flatten().filter(|&x| obs_hash[x] == *h).filter_map(|x| ref_second[x]).collect();
+            match &res.second {
+                Some(Ok(s)) if wants.contains(s) => {}
+                Some(Ok(_)) if !wants.is_empty() => {
                     *outcomes.entry("violation").or_default() += 1;
                     rep.violation(key(), format!("after one more commit and reopen the graph differs from the same commit made on the uncrashed state of commit {j} (stale data visible?)"), replay_v());
                 }
-                (Some(Err(e)), _) => {
+                Some(Err(e)) => {
                     *outcomes.entry("violation").or_default() += 1;
                     rep.violation(key(), format!("recovered commit {j}, but {e}"), replay_v());
                 }
@@ -662,9 +696,9 @@ fn replay(args: &Args, rec: &Recorded, scratch: mcx::Scratch, path: &Path) -> ! 
             k == 0
         }
         Ok(h) => {
-            let j = obs_hash.iter().position(|x| x == h);
-            println!("reopen: state of commit {j:?}; one more commit + reopen: {:?}", res.second.as_ref().map(|s| s.is_ok()));
-            j.is_some_and(|j| j + 1 == k || j == k) && res.second.as_ref().is_some_and(|s| s.is_ok())
+            let js: Vec<usize> = (0..obs_hash.len()).filter(|&j| obs_hash[j] == *h).collect();
+            println!("reopen: state of commit(s) {js:?}; one more commit + reopen: {:?}", res.second.as_ref().map(|s| s.is_ok()));
+            js.iter().any(|&j| j + 1 == k || j == k) && res.second.as_ref().is_some_and(|s| s.is_ok())
         }
     };
     drop(scratch);
